@@ -35,9 +35,8 @@ var (
 		UserSearchBaseDNs []string, UserSearchFilter string,
 		attributes []string) (map[string][]string, error)
 
-	VipValidateUserOTP     func(userID string, OTPValue int) (bool, error)
-	VipStartUserVIPPush    func(userID string) (string, error)
-	VipPushHasBeenApproved func(transactionID string) (bool, error)
+	// VipPostBytes stands for lib/vip's HTTPS POST to the Symantec VIP user services (SOAP in, SOAP out)
+	VipPostBytes func(data []byte, targetURL string, contentType string) ([]byte, error)
 
 	// ClientDialFn, when set, is the transport behind every net.Dial of lib/client/sshagent
 	ClientDialFn func(network, addr string) (net.Conn, error)
